@@ -360,3 +360,47 @@ def tp_program(rng, planted=True):
         cons = [("rel", ">=", ("v", t), ("k", F(0))) for t in names] + cons
     lines = [f"tp {t};" for t in names] + [show(c) + ";" for c in cons]
     return "\n".join(lines) + "\n", {"reals": names, "bools": [], "constraints": cons, "pins": {}, "hidden": hidden if planted else None}
+
+
+def card_program(rng):
+    """exactly-one (`^`) constraints over 2-10 distinct boolean variables (the pairwise and the product encoding of
+    at-most-one), around a planted assignment; unit facts make propagation decide every variable, so the reported
+    solution is judged without any completion"""
+    n = rng.randint(3, 12)
+    bools = [f"b{i}" for i in range(n)]
+    hidden = {b: False for b in bools}
+    groups = []
+    free = list(bools)
+    rng.shuffle(free)
+    for _ in range(rng.randint(1, 3)):
+        if len(free) < 2:
+            break
+        k = rng.randint(2, min(10, len(free)))
+        g = [free.pop() for _ in range(k)]
+        t = rng.choice(g)
+        hidden[t] = True
+        rng.shuffle(g)
+        groups.append((g, t))
+    for b in free:
+        hidden[b] = rng.random() < 0.5
+    lines = [f"bool {b};" for b in bools]
+    cons = []
+    body = []
+    for g, t in groups:
+        c = ("^", [("bv", b) for b in g])
+        cons.append(c)
+        body.append(show(c) + ";")
+        if rng.random() < 0.6:
+            body.append(f"{t};")                       # the others must be propagated false
+            cons.append(("bv", t))
+        else:
+            for b in g:                                # all but the true one are denied: it must be propagated true
+                if b != t:
+                    body.append(f"!{b};")
+                    cons.append(("!", ("bv", b)))
+    for b in free:
+        body.append(f"{b};" if hidden[b] else f"!{b};")
+        cons.append(("bv", b) if hidden[b] else ("!", ("bv", b)))
+    rng.shuffle(body)
+    return "\n".join(lines + body) + "\n", {"reals": [], "bools": bools, "constraints": cons, "pins": {}, "hidden": hidden}
+
